@@ -244,6 +244,28 @@ def run_case(rng, res, riders, i):
             return math.exp(logz) * mean.reshape(inputs[k][1])
 
         attempt("integrate-variable", lambda k=k: Integrate(g, Variable(k, to_domain(inputs[k])), frozenset([Variable(k, to_domain(inputs[k]))])), iref, rest, must_complete=False)
+        # the same against a mixture (logits + Gaussian), also after some integer inputs were reduced (which stays a lazy contraction):
+        # sum over the reduced components of exp(logit) * Z * mean
+        if ints and inputs[k][1] == ():
+            logits2 = np.round(rng.uniform(-1, 1, size=tuple(inputs[n][0] for n in ints)), 2)
+            t2 = Tensor(logits2, OrderedDict((n, Bint[inputs[n][0]]) for n in ints))
+            for r in range(0, len(ints) + 1):
+                for I in itertools.combinations(ints, r):
+                    rest_i = OrderedDict((n, inputs[n]) for n in ints if n not in I)
+
+                    def miref(env, I=I):
+                        tot = 0.0
+                        for pt in itertools.product(*[range(inputs[n][0]) for n in I]):
+                            ie = {**{n: int(env[n]) for n in ints if n not in I}, **dict(zip(I, pt))}
+                            logz, mean, cov = d.moments(ie)
+                            tot += math.exp(float(logits2[tuple(ie[n] for n in ints)]) + logz) * float(mean.reshape(()))
+                        return tot
+
+                    def mthunk(I=I, k=k):
+                        mix = (t2 + g).reduce(ops.logaddexp, frozenset(I)) if I else (t2 + g)
+                        return Integrate(mix, Variable(k, Real), frozenset([Variable(k, Real)]))
+
+                    attempt("integrate-variable-mixture", mthunk, miref, rest_i, must_complete=False, detail="mixture reduced over %s" % (I,))
     sub = OrderedDict((k, inputs[k]) for k in inputs if k in ints or rng.random() < 0.7)
     if rng.random() < 0.6:
         # the integrand lists (some of) the same inputs in another order
